@@ -60,6 +60,8 @@ structure PEnv where
   html : Bool               -- the sniffed MIME type contains "html"
   disableAssets : Bool
   maxHops : Nat
+  body : Bool := true       -- the body was kept for post-processing
+  hops : Nat := 0           -- the page's hops
 
 def _root_.Zeno.PAtom.eval (e : PEnv) : PAtom → Bool
   | .domainsCrawl => e.domainsCrawl
@@ -67,8 +69,11 @@ def _root_.Zeno.PAtom.eval (e : PEnv) : PAtom → Bool
   | .mimeHtml => e.html
   | .disableAssets => e.disableAssets
   | .maxHopsCmp op n => op.eval e.maxHops n
+  | .hasBody => e.body
+  | .hopsCmpMaxHops op => op.eval e.hops e.maxHops
 
 def _root_.Zeno.PCond.eval (e : PEnv) : PCond → Bool
+  | .const b => b
   | .atom a => a.eval e
   | .not c => !c.eval e
   | .and a b => a.eval e && b.eval e
